@@ -54,6 +54,17 @@ Qed.
 Lemma bytes_ok_app a b : bytes_ok (a ++ b) <-> bytes_ok a /\ bytes_ok b.
 Proof. unfold bytes_ok. apply Forall_app. Qed.
 
+Lemma Forall_firstn' {A} (P : A -> Prop) n l : Forall P l -> Forall P (firstn n l).
+Proof.
+  revert n; induction l as [|x l IH]; intros n H; [destruct n; constructor|].
+  destruct n; [constructor|]. apply Forall_cons_iff in H as [Hx Hl]. cbn [firstn]. constructor; auto.
+Qed.
+Lemma Forall_skipn' {A} (P : A -> Prop) n l : Forall P l -> Forall P (skipn n l).
+Proof.
+  revert n; induction l as [|x l IH]; intros n H; [destruct n; constructor|].
+  destruct n; [exact H|]. apply Forall_cons_iff in H as [Hx Hl]. cbn [skipn]. auto.
+Qed.
+
 (* iteration *)
 Section IterFacts.
   Context {A : Type} (f : A -> res A).
